@@ -54,5 +54,9 @@ func tables() allTables {
 	for k := range directive.Directives {
 		t.Directive = append(t.Directive, k)
 	}
+	// the harness itself ranges over registries kept in maps: sort what it collected
+	sortStrings(t.Builders)
+	sortStrings(t.Tasks)
+	sortStrings(t.Directive)
 	return t
 }
